@@ -42,7 +42,7 @@ class SpecFn:
 
 SPEC_NAMES = {n: SpecFn(n) for n in ('implies', 'iff', 'forall', 'exists', 'old', 'fresh_obj',
                                      'unchanged', 'typeis', 'int_text', 'str_of',
-                                     'sumover', 'sumupto', 'oldget', 'keyat')}
+                                     'sumover', 'sumupto', 'oldget', 'keyat', 'indexof')}
 _clause_cache = {}
 
 
@@ -70,7 +70,9 @@ class CallMixin:
             return self.spec_call(e.func.id, e)
         if isinstance(e.func, ast.Name) and e.func.id in ('eval', 'exec') \
                 and e.func.id not in self.frame.locals:
-            sink = self.reg.externals.get(('sink', e.func.id))
+            qn0 = self.frame.qualname.split('::')[0].split('#')[0]
+            sink = self.reg.externals.get(('sink', e.func.id, qn0)) \
+                or self.reg.externals.get(('sink', e.func.id))
             if sink is None:
                 raise Unsupported(f'{e.func.id}() is not a declared sink')
             return sink(self, e)
@@ -743,7 +745,14 @@ class CallMixin:
                 raise Unsupported('forall needs a lambda')
             kinds = {}
             for kw in e.keywords:
-                kinds[kw.arg] = parse_kind(kw.value.value)
+                if isinstance(kw.value, ast.Constant):
+                    kinds[kw.arg] = parse_kind(kw.value.value)
+                else:
+                    kv = self.eval(kw.value)
+                    kt = z3.simplify(kv.t) if kv.kind == STR else None
+                    if kt is None or not z3.is_string_value(kt):
+                        raise Unsupported('quantifier kind must be a constant string')
+                    kinds[kw.arg] = parse_kind(kt.as_string())
             names = [a.arg for a in lam.args.args]
             vars_ = []
             saved = dict(self.frame.locals)
@@ -818,6 +827,21 @@ class CallMixin:
             ctx = self.order_of(cv)
             ordf, mem = ctx[3]
             return self.wf_value(SV(ctx[4], ordf(mem, kk)))
+        if name == 'fresh_obj':
+            # the object was allocated after the function under verification was entered
+            v = self.force(self.eval(e.args[0]))
+            if not v.kind.is_ref:
+                raise Unsupported('fresh_obj() of a non-reference')
+            return SV(BOOL, v.t >= p.next0)
+        if name == 'indexof':
+            # position of a key (member) in the ghost enumeration of a dict (set); inverse of keyat
+            cv = self.force(self.eval(e.args[0]))
+            ctx = self.order_of(cv)
+            ordf, mem = ctx[3]
+            s = sort_of(ctx[4])
+            idx = z3.Function('index_' + sort_name(s), z3.ArraySort(s, z3.BoolSort()), s, z3.IntSort())
+            kt = self.coerce(self.force(self.eval(e.args[1])), ctx[4])
+            return SV(INT, idx(mem, kt))
         if name == 'oldget':
             # element i (a value of the CURRENT state) of container c as it was in the OLD state
             if self.old is None:
@@ -889,6 +913,12 @@ class CallMixin:
             rest = loc[4:]
             if rest == '[*]':
                 return ('allcontent',)
+            if rest == 'fresh[*]':
+                # the content of every container allocated since the function was entered
+                return ('freshcontent',)
+            if rest.endswith('[*]'):
+                # all:list[str][*] - the content of every container of that kind
+                return ('kindcontent', parse_kind(rest[:-3]))
             cls, attr = rest.split('.')
             return ('allfield', cls, attr)
         if loc.endswith('[*]'):
@@ -959,6 +989,30 @@ class CallMixin:
                         arr = p.fresh('HV_' + key, p.heap[key].sort())
                         p.bounds[str(arr)] = p.next
                         p.heap[key] = arr
+            elif d[0] == 'freshcontent':
+                r = z3.Int('r!fc')
+                for key in list(p.heap):
+                    if key.startswith(self.CONTENT_PREFIXES):
+                        oldarr = p.heap[key]
+                        arr = p.fresh('HV_' + key, oldarr.sort())
+                        p.bounds[str(arr)] = p.next
+                        p.assume(z3.ForAll([r], z3.Implies(r < p.next0,
+                                                           z3.Select(arr, r) == z3.Select(oldarr, r)),
+                                           patterns=[z3.Select(arr, r)]))
+                        p.heap[key] = arr
+            elif d[0] == 'kindcontent':
+                tag = self.kind_tag(d[1])
+                dt = self.dtype_arr()
+                r = z3.Int('r!kc')
+                for key in list(p.heap):
+                    if key.startswith(self.CONTENT_PREFIXES):
+                        oldarr = p.heap[key]
+                        arr = p.fresh('HV_' + key, oldarr.sort())
+                        p.bounds[str(arr)] = p.next
+                        p.assume(z3.ForAll([r], z3.Implies(z3.Select(dt, r) != tag,
+                                                           z3.Select(arr, r) == z3.Select(oldarr, r)),
+                                           patterns=[z3.Select(arr, r)]))
+                        p.heap[key] = arr
 
     def havoc_fresh_content(self, v):
         if v.kind.is_obj:
@@ -988,7 +1042,25 @@ class CallMixin:
             elif d[0] == 'allcontent':
                 if key.startswith(self.CONTENT_PREFIXES):
                     return True
+            elif d[0] == 'kindcontent':
+                if key.startswith(self.CONTENT_PREFIXES):
+                    out.append(('tag', self.kind_tag(d[1])))
+            elif d[0] == 'freshcontent':
+                if key.startswith(self.CONTENT_PREFIXES):
+                    out.append(('fresh',))
         return out
+
+    def frame_conds(self, allowed, r):
+        """r is none of the allowed references (a ('tag', t) entry allows every container of that kind)"""
+        cs = []
+        for a in allowed:
+            if isinstance(a, tuple) and a[0] == 'tag':
+                cs.append(z3.Select(self.dtype_arr(), r) != a[1])
+            elif isinstance(a, tuple) and a[0] == 'fresh':
+                cs.append(r < self.p.next0)
+            else:
+                cs.append(r != a)
+        return cs
 
 
 def _hashable(x):
